@@ -223,6 +223,120 @@ let () =
     | _ -> Diff "malformed line")
 
 let () =
+  (* RDZ (C04 "hand every interleaved control frame ... to the control handler"; "after a message ends the reader is
+     ready for the next one"): the handler leaves the payload unread, the Reader skips it. The handler's events carry
+     no payload; they are completed from the frames (k-th interleaved control frame) and the line is judged as RD. *)
+  register "RDZ" (fun i o -> match i, o with
+    | [cfg; frames; cut; spec; tail; bufs], (evs :: rest) ->
+      let fs = if frames = "-" then [] else String.split_on_char ',' frames in
+      let field k t = List.nth (String.split_on_char '.' t) k in
+      let rec inter_payloads openm = function
+        | [] -> []
+        | f :: r ->
+          let op = int_of_string (field 2 f) and fin = (field 0 f = "1") in
+          if op >= 8 then (if openm then field 4 f :: inter_payloads openm r else inter_payloads openm r)
+          else inter_payloads (not fin) r in
+      let pls = ref (inter_payloads false fs) in
+      let evl = if evs = "-" then [] else String.split_on_char ',' evs in
+      let evl' = List.map (fun e ->
+        match String.split_on_char '.' e with
+        | [op; "1"; comp; _] when int_of_string op >= 8 ->
+          (match !pls with
+           | p :: r -> pls := r; String.concat "." [op; "1"; comp; p]
+           | [] -> e)
+        | _ -> e) evl in
+      let cfg' = (match String.split_on_char '.' cfg with
+        | [a; b; c; d; e; _] -> String.concat "." [a; b; c; d; e; "1"] | _ -> cfg) in
+      (match Hashtbl.find_opt handlers "RD" with
+       | Some f -> f [cfg'; frames; cut; spec; tail; bufs] ((if evl' = [] then "-" else String.concat "," evl') :: rest)
+       | None -> Diff "no RD handler")
+    | _ -> Diff "malformed line")
+
+let () =
+  register "DD10H" (fun i o -> match i with
+    | [url; _host] -> (match Hashtbl.find_opt handlers "DD10" with Some f -> f [url] o | None -> Diff "no DD10 handler")
+    | _ -> Diff "malformed line")
+
+let () =
+  (* C13U: "the header handed to the application has RSV1 cleared with the other bits untouched, and RSV1 on a
+     continuation or control frame is rejected"; "reports compressed exactly when the first frame had RSV1" *)
+  register "C13U" (fun i o -> match i, o with
+    | [op; rsv; fin; prev], [direct; via] ->
+      let op = int_of_string op and rsv = int_of_string rsv in
+      let first = (op = 1 || op = 2) in
+      let judge what tok has_len =
+        match String.split_on_char '.' tok with
+        | f :: r :: o :: rest ->
+          let (err, comp) = (match rest with
+            | [_m; _l; e; c] when has_len -> (e, c) | [e; c] when not has_len -> (e, c) | _ -> ("?", "?")) in
+          if first then begin
+            if err <> "nil" then Some (what ^ ": the first frame of a data message was refused")
+            else if int_of_string r <> rsv land 3 then Some (what ^ ": RSV1 not cleared or RSV2/RSV3 changed on the first frame")
+            else if f <> fin || int_of_string o <> op then Some (what ^ ": fin/opcode of the header changed")
+            else if comp <> (if rsv land 4 <> 0 then "1" else "0") then Some (what ^ ": state does not report compressed exactly when the first frame had RSV1")
+            else None
+          end else if rsv land 4 <> 0 then (if err = "nil" then Some (what ^ ": RSV1 on a continuation or control frame was accepted") else None)
+          else begin
+            if err <> "nil" then Some (what ^ ": a continuation/control frame without RSV1 was refused")
+            else if int_of_string r <> rsv || f <> fin || int_of_string o <> op then Some (what ^ ": header of a continuation/control frame changed")
+            else if comp <> prev then Some (what ^ ": a continuation/control frame disturbed the compressed state")
+            else None
+          end
+        | _ -> Some (what ^ ": malformed") in
+      (match judge "MessageState.UnsetBits" direct true with
+       | Some m -> Viol m
+       | None -> if via = "-" then Pass true else (match judge "Reader.NextFrame" via false with Some m -> Viol m | None -> Pass true))
+    | _ -> Diff "malformed line")
+
+let () =
+  register "C20T" (fun i o -> match i, o with
+    | [mode], [out; cls; closed] ->
+      if out = "hang" then Viol "wss: Dial was still waiting on a silent peer 3 s after the context ended / the timeout elapsed"
+      else if cls = "nil" then Viol "wss: Dial reported success against a peer that never answered"
+      else if (mode = "ctxdl" && cls <> "deadline") || (mode = "cancel" && cls <> "canceled") then
+        Viol "wss: the context ended before the handshake I/O finished, yet the error is not the context's error"
+      else if closed <> "1" then Viol "wss: non-nil error but the conn was not closed"
+      else Pass true
+    | _ -> Diff "malformed line");
+  register "C20S" (fun i o -> match i, o with
+    | [tmo; _connect], [out; iserr; armed] ->
+      let tmo = int_of_string tmo and armed = int_of_string armed in
+      if out = "hang" then Viol "Dial did not return although Dialer.Timeout elapsed on a silent peer"
+      else if iserr <> "1" then Viol "Dial reported success against a silent peer"
+      else if armed < 0 then Diff "no deadline was armed on the conn"
+      else if armed > tmo + 150 then Viol (Printf.sprintf "the deadline armed on the conn is %d ms after the start of Dial although Dialer.Timeout is %d ms (the connect time was added)" armed tmo)
+      else Pass true
+    | _ -> Diff "malformed line");
+  register "C19J" (fun i o -> match i, o with
+    | [_; _], [mism; races] ->
+      if int_of_string races > 0 then Viol (Printf.sprintf "the race detector reported %s data race(s) between concurrently refused handshakes" races)
+      else if int_of_string mism > 0 then Viol (mism ^ " concurrently refused handshake(s) got another response than alone")
+      else Pass true
+    | _ -> Diff "malformed line");
+  register "C19R" (fun i o -> match i, o with
+    | [_], [_same; b; f] ->
+      if b <> f then Viol "a Writer taken from the pool by another session does not send the frames a fresh Writer sends (state of the previous session leaked)"
+      else Pass true
+    | _ -> Diff "malformed line")
+
+let () =
+  (* RDF (C07 "an invalid message is reported as invalid no later than its end and is never returned as complete") *)
+  register "RDF" (fun i o -> match i, o with
+    | [_; text; _], [n1; e1; got; _n2; e2] ->
+      let text = bytes_of_hex text in
+      let valid = Utf8Spec.valid_utf8 text in
+      if valid then begin
+        if e1 <> "nil" && not (text = [] && e1 = "eof") then Viol ("a valid text message read with io.ReadFull was refused: " ^ e1)
+        else if bytes_of_hex got <> text then Viol "a valid text message read with io.ReadFull came back altered"
+        else Pass true
+      end else begin
+        if e1 = "nil" && int_of_string n1 = List.length text then
+          Viol "an invalid text message read with io.ReadFull into a buffer of exactly its length came back complete with no error"
+        else Pass true
+      end
+    | _ -> Diff "malformed line")
+
+let () =
   register "FRP" (fun i o -> match i, o with
     | [_; _; _; _], [a; b; fresh_ok] ->
       if fresh_ok <> "1" then Viol "a fresh compression reader does not return the message that was compressed"
